@@ -55,7 +55,8 @@ DownFinal(o) ==
 C11Step(m, o) ==
     [issued |-> m.issued \cup {e.t : e \in {x \in Range(OTimers(o.out)) : x.t.k = "Suspect"}},
      v |-> DownFinal(o)
-           \cup (IF o.call = "timer" /\ o.args.k = "Suspect" /\ o.args \in m.issued
+           \* (the case-table driver c11 constructs its timers: there every timeout is judged)
+           \cup (IF o.call = "timer" /\ o.args.k = "Suspect" /\ (o.args \in m.issued \/ o.env.driver = "c11")
                  THEN SuspectTimeout(o) ELSE {})
            \cup (IF o.call = "timer" /\ o.args.k = "RemoveDown"
                  THEN V(\A i \in DOMAIN o.pre.state :
